@@ -463,4 +463,9 @@ def run_tables(F, rep, R, cg, opener_fns, close_fns, entries):
     except OSError:
         pass
     run_r10(F, rep, R, cg, items, opener_fns, close_fns)
-    run_r11(F, rep, R, cg, items, entries)
+    # R11 (the WHOLE expander interpreted over sample include graphs in a virtual file system against a reference implementation) is deliberately
+    # NOT armed: R10 evaluates two closed, pure line predicates exhaustively over a finite abstract domain of lines (the same kind of argument as the
+    # shape / alignment / arity tables of C01, C07, C16); R11 would be a test suite executed by a home-made interpreter - a run of the program under a
+    # static label - which is outside the technique this framework is restricted to (DESIGN 19.3). The code is kept for `tools/shapes/c20` only.
+    if os.environ.get("MECH_C20_R11") == "1":
+        run_r11(F, rep, R, cg, items, entries)
